@@ -263,6 +263,14 @@ func (c *labelCtx) placedElement(lin *kit.LinEval, f *ssa.Function, mu *ssa.MapU
 			}
 		}
 	})
+	// or the key is read back from the HeaderData built here: `data := &HeaderData{…}; m[data.Hash]`
+	if hd == nil {
+		if fl, base := kit.LoadedField(mu.Key); fl == c.hashF {
+			if a, ok := kit.Strip(base).(*ssa.Alloc); ok {
+				hd = a
+			}
+		}
+	}
 	if hd == nil {
 		return nil, kit.Lin{}, false
 	}
